@@ -110,6 +110,10 @@ def check(case, ctx):
             k = nd - 1
             label = "a.diff(n=%d, scheme=%r, keepaxis=%r)" % (n, scheme, keep) + base
             fn = lambda: a.diff(n=n, scheme=scheme, keepaxis=keep)
+        elif scheme == 'backward' and n == 1 and not keep and case["by_pos"]:
+            # all defaults (documented: backward difference of order 1, the axis shortened)
+            label = "a.diff(axis=%r)" % (axis,) + base
+            fn = lambda: a.diff(axis=axis)
         else:
             label = "a.diff(axis=%r, n=%d, scheme=%r, keepaxis=%r)" % (axis, n, scheme, keep) + base
             fn = lambda: a.diff(axis=axis, n=n, scheme=scheme, keepaxis=keep)
